@@ -4,10 +4,10 @@ import os
 import vlib
 
 ADV = ["Adv_DropRrsig", "Adv_DropRrset", "Adv_ReplaceRdata", "Adv_WrongSigner", "Adv_Expire",
-       "Adv_NotYetValid", "Adv_ForgeSigned", "Adv_AddBadSig", "Adv_CorruptKey", "Adv_CorruptDs", "Adv_StripProof",
+       "Adv_NotYetValid", "Adv_ReplayAncestor", "Adv_ForgeSigned", "Adv_AddBadSig", "Adv_CorruptKey", "Adv_CorruptDs", "Adv_StripProof",
        "Adv_ForgeNsecRange", "Adv_SwapProof", "Adv_BadNsec3Label", "Adv_BadNsec3LabelSigned",
        "Adv_ZeroCounts", "Adv_ZeroTtl", "Adv_Inject", "Adv_CnameLoop"]
-VAL = ["Deliver", "StartGroup", "FetchNext", "VerifyKey", "VerifyDs", "Probe", "CheckGroup", "Judge"]
+VAL = ["Deliver", "StartGroup", "EntProbe", "FetchNext", "VerifyKey", "VerifyDs", "Probe", "CheckGroup", "Judge"]
 ACTIONS = ["Init"] + ADV + VAL
 
 DEV_INVARIANT = {"D_nsec3_label_expect": "NoPanic", "D_ttl0_node_panic": "NoPanic",
@@ -34,8 +34,10 @@ def run(ctx):
     thorough = ctx.tier == "thorough"
     ctx.build("replay_validator")
     # 1. TLC: the machine satisfies the properties w.r.t. the declarative oracle
+    # (the same exploration also emits one S->I case per finished behaviour)
+    cases = os.path.join(ctx.work, "cases.ndjson")
     mc = ctx.tlc("MC_Validator", "MC_Validator_thorough" if thorough else "MC_Validator",
-                 workers=8, label="mc")
+                 workers=8, label="mc", cases_to=cases)
     ctx.require_ok(mc, "MC_Validator")
     ctx.require_actions(mc, ACTIONS)
     ctx.exhaustive_flags.append(True)
@@ -48,10 +50,7 @@ def run(ctx):
         if not r.ok:
             raise vlib.ToolError("deviation %s does not violate %s in the model" % (dev, inv))
     # 2. S->I: every scenario against the real validator
-    cases = os.path.join(ctx.work, "cases.ndjson")
-    gen = ctx.tlc("MC_Validator", "Gen_Validator_thorough" if thorough else "Gen_Validator",
-                  workers=8, label="gen", coverage=False, cases_to=cases, count=False)
-    ctx.require_ok(gen, "Gen_Validator")
+    gen = mc
     if gen.ncases < 3000:
         raise vlib.ToolError("generator produced too few scenarios: %d" % gen.ncases)
     head = os.path.join(ctx.work, "head.ndjson")
